@@ -504,7 +504,7 @@ def run_shard(spec):
 
 def check_floors(counters, evaluations, tier):
     msgs = []
-    for key, frac in (('with-reference', 0.4), ('multi-layer-variable', 0.2)):
+    for key, frac in (('with-reference', 0.3), ('multi-layer-variable', 0.2)):
         if counters.get(key, 0) < frac * evaluations:
             msgs.append("%s in only %d of %d cases" % (
                 key, counters.get(key, 0), evaluations))
